@@ -30,15 +30,23 @@ def valStr : Option Bytes → String
 def propsStr (d : Txt.Props) : String :=
   s!"{d.length}" ++ String.join (d.map (fun e => s!" {hexOfBytes e.1} {valStr e.2}"))
 
-def pyVal (isStr : Bool) (b : Bytes) : Txt.PyVal := if isStr then .str b else .bytes b
+/-- type tag of the line protocol: 0 = bytes, 1 = `str` (its UTF-8 bytes follow), 2 = `str` with a lone surrogate -/
+def pyObj (ty : Nat) (b : Bytes) : Option Txt.PyObj :=
+  match ty with
+  | 0 => some (.val (.bytes b))
+  | 1 => some (.val (.str b))
+  | 2 => some .surrogateStr
+  | _ => none
 
-def entry : Tok (Txt.PyVal × Option Txt.PyVal) := do
-  let ks ← Tok.bool
+def entry : Tok (Txt.PyObj × Option Txt.PyObj) := do
+  let ks ← Tok.nat
   let k ← Tok.bytes
   let has ← Tok.bool
-  let vs ← Tok.bool
+  let vs ← Tok.nat
   let v ← Tok.bytes
-  pure (pyVal ks k, if has then some (pyVal vs v) else none)
+  match pyObj ks k, pyObj vs v with
+  | some ko, some vo => pure (ko, if has then some vo else none)
+  | _, _ => failure
 
 /-- an observed key/value: bytes as hex; a `str` (which `.properties` must never contain) tagged -/
 def pyTok : Txt.PyVal → String
@@ -48,18 +56,20 @@ def pyTok : Txt.PyVal → String
 def pyDictStr (d : Txt.PyDict) : String :=
   s!"{d.length}" ++ String.join (d.map (fun e => s!" {pyTok e.1} " ++ (match e.2 with | none => "N" | some v => pyTok v)))
 
-/-- `c19t <n> (<keyIsStr01> <key> <hasValue01> <valueIsStr01> <value>)*` (str keys/values as their UTF-8 bytes) →
-`ok <text> L <.properties> D <library decode of text> R <rfc parse | bad>` | `err <Exception>` -/
+/-- `c19t <n> (<keyType> <key> <hasValue01> <valueType> <value>)*` (type 0 bytes, 1 str as its UTF-8 bytes, 2 str with a lone
+surrogate) → `ok <text> L <.properties> D <library decode of text> R <rfc parse | bad> A <.properties is the caller's object>`
+| `err <Exception>` -/
 def c19t (toks : List String) : String :=
-  match (do let d ← Tok.list entry; Tok.done; pure d : Tok Txt.PyDict).run toks with
+  match (do let d ← Tok.list entry; Tok.done; pure d : Tok Txt.PyDictRaw).run toks with
   | some (d, _) =>
-    match Txt.setProperties d with
+    match Txt.setPropertiesRaw d with
     | .error e => s!"err {e.name}"
     | .ok (text, obs) =>
       let rfc := match Txt.Spec.parse text with
         | some d => propsStr d
         | none => "bad"
-      s!"ok {hexOfBytes text} L {pyDictStr obs} D {propsStr (Txt.decodeLib text)} R {rfc}"
+      let alias := if Txt.returnsCallersDict (Txt.textOf d) then "1" else "0"
+      s!"ok {hexOfBytes text} L {pyDictStr obs} D {propsStr (Txt.decodeLib text)} R {rfc} A {alias}"
   | none => "bad-op"
 
 /-- `c19d <text>` → `L <library decode> R <rfc parse | bad>` -/
